@@ -53,6 +53,11 @@ func (watchStream) Generate(rng *rand.Rand, tier string, emit func(Case)) {
 		{"lock", "rmdir", "mkdir", "writeInPlace", "unlock", "pause", "rmdir"},
 		{"rmdir", "pause", "mkdir", "moveIn"}, {"writeInPlace", "rmdir", "mkdir", "writeViaTemp"},
 		{"rmdir", "mkdir", "pause", "writeInPlace", "pause", "rmdir", "mkdir"},
+		// the directory is replaced while the watcher cannot run, rescanned while unwatched, changed
+		// again before any query
+		{"lock", "rmdir", "mkdir", "writeInPlace", "unlock", "pause", "rewrite"},
+		{"lock", "rmdir", "mkdir", "moveIn", "unlock", "pause", "writeViaTemp"},
+		{"lock", "rmdir", "mkdir", "writeInPlace", "unlock", "pause", "unlink"},
 		// the same kind of event several times in a row (each must be acted upon)
 		{"writeInPlace", "pause", "rewrite", "pause", "rewrite"}, {"writeInPlace", "rewrite", "rewrite", "rewrite"},
 		{"writeViaTemp", "pause", "writeViaTemp", "pause", "writeViaTemp"}, {"moveIn", "pause", "moveIn", "pause", "moveIn"},
